@@ -161,19 +161,23 @@ def gen_reply(rng):
     code = rng.choice([200, 213, 220, 226, 227, 230, 331, 150, 550, 421])
     kind = rng.choice(['single', 'single', 'multi', 'multi-indented', 'multi-coded', 'lf-only', 'multi-digit-lines', 'multi-other-code'])
     words = ['ok', 'File status', 'Entering Passive Mode (127,0,3,9,156,65)', 'done.', 'transfer complete', 'é ü', '']
+    # reply text is arbitrary bytes: sometimes the whole reply is sent in Latin-1 (not valid UTF-8), on any of its lines
+    enc = 'latin-1' if rng.random() < 0.25 else 'utf-8'
+    hi = ['caf\xe9', '\xff\xfe', 'Willkommen bei \xfcber', '\x80'] if enc == 'latin-1' else []
+    words = words + hi
     if kind == 'single':
         text = [rng.choice(words)]
-        wire = ('%d %s\r\n' % (code, text[0])).encode()
+        wire = ('%d %s\r\n' % (code, text[0])).encode(enc)
     elif kind == 'lf-only':
         text = [rng.choice(words)]
-        wire = ('%d %s\n' % (code, text[0])).encode()
+        wire = ('%d %s\n' % (code, text[0])).encode(enc)
     else:
         n = rng.randrange(1, 5)
         mids = []
         lines = ['%d-%s' % (code, 'first line')]
         text = ['first line']
         for i in range(n):
-            w = rng.choice(['features:', 'MLSD', 'UTF8', 'welcome to sim', 'quota: 10 of 20'])
+            w = rng.choice(['features:', 'MLSD', 'UTF8', 'welcome to sim', 'quota: 10 of 20'] + hi + hi)
             if kind == 'multi-digit-lines':
                 # un-prefixed continuation lines that merely begin with digits (byte counts, dates, user counts): only a
                 # line made of this reply's code and a space ends the reply (RFC 959 4.2)
@@ -191,11 +195,11 @@ def gen_reply(rng):
             else:
                 lines.append(w)
                 text.append(w)
-        last = rng.choice(['end', 'done'])
+        last = rng.choice(['end', 'done'] + hi)
         lines.append('%d %s' % (code, last))
         text.append(last)
-        wire = ('\r\n'.join(lines) + '\r\n').encode()
-    return {'code': code, 'kind': kind, 'text_lines': text, 'wire': wire}
+        wire = ('\r\n'.join(lines) + '\r\n').encode(enc)
+    return {'code': code, 'kind': kind + ('/latin-1' if enc == 'latin-1' else ''), 'text_lines': text, 'wire': wire}
 
 
 def reference_reply(wire):
@@ -306,7 +310,7 @@ def check_reply(case, part, rng):
         # leading white space of continuation lines is not significant
         got_lines = [ln.lstrip(' ') for ln in base[1].split('\r\n')]
         ref_texts = [ln.lstrip(' ') for ln in ref_texts]
-        if case['kind'] in ('multi-digit-lines', 'multi-other-code'):
+        if case['kind'].split('/')[0] in ('multi-digit-lines', 'multi-other-code'):
             # how much of a digit prefix of a continuation line is kept in the text is not part of the statement: only
             # the number of lines is compared for these shapes
             got_lines = len(got_lines)
